@@ -444,7 +444,15 @@ func (c *c16ctx) runSeeks(id partstore.PartId, mode string, P []byte, steps []se
 				fail("seek-error", fmt.Sprintf("step %d: Seek(%d,%d) to absolute offset %d of a %d-byte part failed: %v", si, st.Off, st.Whence, abs, n, err))
 				return nil
 			}
-			if got != abs {
+			if abs > n {
+				// beyond the end is not "an offset of the part": only the (empty)
+				// suffix is checked, a clamped position is accepted
+				if got < n {
+					fail("seek-position", fmt.Sprintf("step %d: Seek(%d,%d) beyond the end returned %d, inside the %d-byte part", si, st.Off, st.Whence, got, n))
+					return nil
+				}
+				abs = got
+			} else if got != abs {
 				fail("seek-position", fmt.Sprintf("step %d: Seek(%d,%d) returned %d, expected %d", si, st.Off, st.Whence, got, abs))
 				return nil
 			}
@@ -542,8 +550,8 @@ func randomSeekSeq(n int, rg *vkit.Rand) []seekStep {
 		if target < 0 {
 			target = 0
 		}
-		if target > n+2 {
-			target = n + 2
+		if target > n {
+			target = n
 		}
 		st := seekStep{}
 		switch rg.Intn(3) {
